@@ -718,6 +718,8 @@ func (g *Gen) panicHere(fr *frame, st *State, kind, what string) {
 			goal = smtOr(alts...)
 		}
 		g.addOblig(st, "safety", name, goal, what)
+	} else if g.fc != nil && len(g.fc.PanicOnlyWhen) > 0 {
+		g.addOblig(st, "safety", g.safetyName(kind, what), g.panicAllowed(st), what)
 	}
 	st.reach = "false"
 }
@@ -743,6 +745,8 @@ func (g *Gen) guard(fr *frame, st *State, kind, what, cond string) {
 	}
 	if g.panicsNever {
 		g.addOblig(st, "safety", g.safetyName(kind, what), cond, what)
+	} else if g.fc != nil && len(g.fc.PanicOnlyWhen) > 0 && fr != nil {
+		g.addOblig(st, "safety", g.safetyName(kind, what), smtOr(cond, g.panicAllowed(st)), what)
 	}
 	st.reach = g.nameReach(smtAnd(st.reach, cond), "ok")
 }
